@@ -6,7 +6,7 @@
 /// Check for `assertion`: ""tensor == must hold exactly when shape and elements agree""
 
 #[test]
-fn kani_concrete_playback_c19_eq_d2_2743973663336825441() {
+fn kani_concrete_playback_c19_eq_d2_14054474177673263239() {
     let concrete_vals: Vec<Vec<u8>> = vec![
         // 2ul
         vec![2, 0, 0, 0, 0, 0, 0, 0],
@@ -16,10 +16,10 @@ fn kani_concrete_playback_c19_eq_d2_2743973663336825441() {
         vec![1, 0, 0, 0, 0, 0, 0, 0],
         // 2ul
         vec![2, 0, 0, 0, 0, 0, 0, 0],
+        // 192
+        vec![192],
         // 0
         vec![0],
-        // 0
-        vec![0],
         // 255
         vec![255],
         // 255
@@ -28,8 +28,8 @@ fn kani_concrete_playback_c19_eq_d2_2743973663336825441() {
         vec![255],
         // 255
         vec![255],
-        // 0
-        vec![0],
+        // 192
+        vec![192],
         // 0
         vec![0],
         // 255
